@@ -72,7 +72,7 @@ def replay(c):
         ok, text = c05.concrete(ctor, c05.decode(c['witness']['value']))
         return ok is None, str(text)
     if c['kind'] == 'hang':
-        return (True, 'exceeded 5 s again') if hist.hangs(c['cls'], c['witness']['ops']) else (False, 'finished within the limit')
+        return (True, 'exceeded 30 s again') if hist.hangs(c['cls'], c['witness']['ops']) else (False, 'finished within the limit')
     for k, d in judge_concrete(c['cls'], c['witness']['ops'], c['witness']):
         if k == c['kind']:
             return True, d
@@ -85,7 +85,7 @@ def describe():
              'intelligent_choice off and on; every exception escaping a public call is classified (documented family or not), '
              'stdout/stderr captured per call, per-path timer; non-trivial = every history',
         functions=['xmlelement/xmlelement.py:XMLElement.*', 'xmlelement/xmlchildcontainer.py:*'],
-        bounds=dict(exploration='breadth-first over reachable states (structural fingerprints merge equal states), depth <= 8 quick / 10 thorough; every state expanded by all 10 operation kinds at depth <= 2 (3), by ADD REMOVE REPLACE DOTSET DOTNONE SELF deeper; path budget 3500 quick / 45000 thorough per class (breadth-first order: the cut removes the deepest states)', forward='[-2,4] quick / [-4,8] thorough', path_timeout_s=5),
+        bounds=dict(exploration='breadth-first over reachable states (structural fingerprints merge equal states), depth <= 8 quick / 10 thorough; every state expanded by all 10 operation kinds at depth <= 2 (3), by ADD REMOVE REPLACE DOTSET DOTNONE SELF deeper; path budget 3500 quick / 45000 thorough per class (breadth-first order: the cut removes the deepest states)', forward='[-2,4] quick / [-4,8] thorough', path_timeout_s=10),
         assumptions=['TypeError/ValueError are treated as documented everywhere (the statement allows them for values; the harness does not try to tell a value error from a structural one)',
                      'AttributeError is documented only for an unknown dot name'],
         exhaustive_within_bounds=True)
